@@ -231,6 +231,15 @@ VaListClass == [x \in {"x86_64-sysv", "riscv64"} |-> <<"l">>] @@ [x \in {"aarch6
 VaListAArch64 == SU(FALSE, FALSE, <<MEM(SC("ptr"), TRUE, -1, 0), MEM(SC("ptr"), TRUE, -1, 0), MEM(SC("ptr"), TRUE, -1, 0),
                                     MEM(SC("int"), TRUE, -1, 0), MEM(SC("int"), TRUE, -1, 0)>>)
 
+(* A sub-word integer comes back in a full register whose upper bits the psABIs leave undefined: before cproc uses *)
+(* the result of a call as a word (as a controlling expression: if/while/for/do, ?:, !, &&, ||) it has to extend it  *)
+(* from its own width.  RetExt: the extension a result of scalar type n needs ("" = none), cs = plain char is signed *)
+RetExt(n, cs) == CASE n \in {"bool", "uchar"} -> "extub" [] n = "schar" -> "extsb" [] n = "char" -> (IF cs THEN "extsb" ELSE "extub")
+                   [] n = "short" -> "extsh" [] n = "ushort" -> "extuh" [] OTHER -> ""
+RetExtOf(r) == IF r.k = "sc" THEN [x \in {"x86_64-sysv"} |-> RetExt(r.n, TRUE)] @@ [x \in {"aarch64", "riscv64"} |-> RetExt(r.n, FALSE)]
+               ELSE [x \in {"x86_64-sysv", "aarch64", "riscv64"} |-> ""]
+CtrlContexts == <<"if", "while", "for", "do", "cond", "not", "and", "or">>
+
 AInput == IF Mode \in {"judge", "sig", "ident"} THEN ndJsonDeserialize(IOEnv.ABI_IN) ELSE <<>>
 
 SigScalars == {"bool", "char", "schar", "uchar", "short", "ushort", "int", "uint", "long", "ulong", "llong", "ullong", "float", "double", "ptr"}
@@ -276,6 +285,7 @@ SigCase == [k |-> "sig", ret |-> st.ret, va |-> st.va, ps |-> ms, xs |-> outs, f
             pcls |-> [i \in 1..Len(ms) |-> PClass(ms[i])],
             xcls |-> [i \in 1..Len(outs) |-> VClass(outs[i])],
             valist |-> VaListClass, valist_t |-> VaListAArch64,
+            rext |-> RetExtOf(st.ret), ctxs |-> CtrlContexts,
             marker |-> IF st.va THEN Len(ms) ELSE -1,           \* index of the `...` marker in a call (number of named arguments)
             \* with no variable arguments the marker changes the machine-level protocol only where the caller must
             \* announce the number of vector registers used (SysV: %al); elsewhere its absence is ABI-equivalent
@@ -326,6 +336,11 @@ AInit ==
           \/ \E i \in 1..n, v \in {"", "u", "r"} :
                /\ st = [ret |-> IF v = "u" THEN [k |-> "void"] ELSE [k |-> "agg", i |-> i], va |-> FALSE, nagg |-> n, fresh |-> v]
                /\ ms = IF v = "r" THEN <<>> ELSE <<[k |-> "agg", i |-> i, nm |-> v # "u"]>>
+               /\ outs = <<>>
+          \* every sub-word return type once: `T f(int)` called in each controlling context
+          \/ \E ty \in {"bool", "char", "schar", "uchar", "short", "ushort"} :
+               /\ st = [ret |-> [k |-> "sc", n |-> ty], va |-> FALSE, nagg |-> n, fresh |-> ""]
+               /\ ms = <<[k |-> "sc", n |-> "int", nm |-> TRUE]>>
                /\ outs = <<>>
           \* variadic matrix: 0, 1, 2 named parameters x 0, 1, 3 variable arguments (integer, floating, aggregate);
           \* the marker sits at index nparam, i.e. first for `f(...)`
